@@ -109,6 +109,13 @@ mut("R24", V, "\t\tif (!KSI_DataHash_equals(sigRightLinkHash, extSigRightLinkHas
 mut("R25", V, "\tres = KSI_PublicationsFile_findPublication(tempData->publicationsFile,\n\t\t\t(const KSI_PublicationRecord*)sig->publication, &pubRec);",
     "\tres = KSI_PublicationsFile_findPublicationByTime(tempData->publicationsFile,\n\t\t\tsig->publication->publishedData->time, &pubRec);",
     "h_pubfile.n1_pub", "PUB-05 rule looks the publication up by time only")
+mut("R27", V, "\tif (info->userPublication != NULL) {\n\t\tKSI_LOG_info(info->ctx, \"User publication data provided.\");", "\tif (info->userPublication != NULL && info->userPublication->time != NULL && info->userPublication->imprint != NULL) {\n\t\tKSI_LOG_info(info->ctx, \"User publication data provided.\");",
+    "h_user.cal_pub_up2,h_user.cal_pub_up3", "RequireNoUserProvidedPublication treats an incomplete publication object as absent (general policy would fall through to other anchors)")
+mut("R28", V, "\tres = receiveCalendarHashChain(info, pubTime);\n\tif (res != KSI_OK) {\n\t\tHANDLE_CALENDAR_FETCH_ERR_RESULT;\n\t\tgoto cleanup;\n\t}\n\n\tVERIFICATION_RESULT_OK(step);\n\tres = KSI_OK;\n\ncleanup:\n\n\treturn res;\n}\n\nint KSI_VerificationRule_PublicationsFileExtendToPublication",
+    "\tres = receiveCalendarHashChain(info, NULL);\n\tif (res != KSI_OK) {\n\t\tHANDLE_CALENDAR_FETCH_ERR_RESULT;\n\t\tgoto cleanup;\n\t}\n\n\tVERIFICATION_RESULT_OK(step);\n\tres = KSI_OK;\n\ncleanup:\n\n\treturn res;\n}\n\nint KSI_VerificationRule_PublicationsFileExtendToPublication",
+    "h_ext.same_cal", "extend-to-same-publication-time asks for the calendar head instead")
+mut("R29", V, "            VERIFICATION_RESULT_INC(KSI_VER_RES_NA, KSI_VER_ERR_GEN_2, step, res, ext, errmsg); \\", "            VERIFICATION_RESULT_INC(KSI_VER_RES_OK, KSI_VER_ERR_NONE, step, res, ext, errmsg); \\",
+    "h_ext.head_nocal,h_pubfile.n1_pub_download", "an unavailable extender / publications file is reported as OK")
 mut("R26", V, "\ttempData->calendarChain = tmp;\n\ttmp = NULL;\n", "",
     "h_ext.head_nocal,h_e2e.cal_head", "receiveCalendarHashChain reports success without buffering the reply's chain")
 mut("T13", P, "\t{KSI_RULE_TYPE_BASIC, KSI_VerificationRule_ExtendedSignatureCalendarChainInputHash},\n\t{KSI_RULE_TYPE_BASIC, KSI_VerificationRule_ExtendedSignatureCalendarChainAggregationTime},\n\t{KSI_RULE_TYPE_BASIC, NULL}\n};\n\nstatic const KSI_Rule extendToCalendarChainRule",
